@@ -392,8 +392,11 @@ class ProgGen:
                     return {"i": i, "c": client, "op": kind, "a": a, "b": b}
         if r < 0.50:
             a = rng.choice(self.tensor_cands(8))
-            if 1 <= self.tensors[a].arr.ndim <= 2:
-                return {"i": i, "c": client, "op": "pow", "a": a, "k": rng.choice([1, 2, 3])}
+            ra, na = self.tensors[a].arr.ndim, max(self.tensors[a].arr.shape, default=1)
+            if ra >= 1:
+                ks = [k for k in (1, 2, 3, 4) if na ** (k * ra) <= MAX_ELEMS and k * ra <= 12]
+                if ks:
+                    return {"i": i, "c": client, "op": "pow", "a": a, "k": rng.choice(ks)}
         if r < 0.53:
             of = rng.choice(sorted(self.tensors))
             t = self.new_t()
